@@ -54,21 +54,52 @@ Theorem read_fresh_error_path : forall orc ds h s n s' v og,
 Proof. exact read_fresh_outcome. Qed.
 Print Assumptions read_fresh_error_path.
 
+(* TOTALITY: after every history, reading any existing node returns (acyclicity is an invariant — Connect
+   refuses to close a cycle, Disconnect only removes edges — and fuel = number of nodes + 1 suffices); so the
+   hypothesis "read … = Some …" of the theorems above is never vacuous, and freshness can be stated without it. *)
+Lemma sorted_stable_oracle : stable_oracle sorted_oracle.
+Proof. intros c. exact sorted_order_stable. Qed.
+
+Theorem read_total_and_fresh : forall ds h s n,
+  run sorted_oracle (init ds) h = Some s -> n < length (nodes s) ->
+  exists s' v, read sorted_oracle s n = Some (s', v) /\ eval_now s n = Some v.
+Proof.
+  intros ds h s n R Hn.
+  destruct (read_total sorted_oracle ds h s n sorted_stable_oracle R Hn) as (s' & v & Hr).
+  exists s', v. split; auto.
+  exact (proj1 (read_fresh_any_order sorted_oracle ds h s n s' v sorted_oracle_ok R Hr)).
+Qed.
+Print Assumptions read_total_and_fresh.
+
 (* Processors that PANIC (third outcome of a read).  Model ([pvalue], Graph/Nodes.v): when Data.Process() of a node
    panics — its own code or a dependency's Value() called from it — the panic unwinds through process() and
    Value(): nothing of that node (value, version, depVersions, flag) is updated, dependencies whose Value() had
    already returned keep what their own evaluation committed; the caller recovers.  [prun] = histories whose
-   reads may panic ([pan] tells which processor panics on which input values).
-   After ANY such history, under every enumeration order:
-   - a read that returns a value returns the from-scratch value of the current wiring and parameters — whatever
-     panicked before; nothing is left marked up to date by a panicking read;
-   - a read that panics does so because some processor panics on the from-scratch values of its inputs;
-   - the read leaves the wiring alone, and Version() still equals the number of completed executions.
-   _partial: the full three-outcome statement is [eval_p pan fuel (graph_of (nodes s)) n = Some r] (the read
-   panics IF AND ONLY IF the from-scratch evaluation of n panics).  Missing direction: "a node served from its
-   cache would not panic from scratch", which needs the panic table carried through the cache invariant; the
-   check evaluates exactly this equivalence ([eval_p] in prop_ok) on every read of every history. *)
-Theorem read_fresh_three_outcomes_partial : forall pan orc ds h s n st' r,
+   reads may panic ([pan] tells which processor panics on which input values); [eval_p] = from-scratch
+   evaluation with panics (inputs in declaration order, the first panic aborts).
+   THREE-OUTCOME FRESHNESS, both directions: after any such history every read of an existing node returns
+   ([read_three_outcomes_total]) and its outcome — a value or a panic — IS the outcome of the from-scratch
+   evaluation of the current wiring and parameters: it panics iff the from-scratch evaluation panics and
+   otherwise returns its value, whatever panicked, failed or succeeded before.  The read leaves the wiring
+   alone and Version() still equals the number of completed executions.  (Stable enumeration order = the
+   repaired code; for arbitrary permutation oracles the value direction is [read_fresh_panics_any_order].) *)
+Theorem read_fresh_three_outcomes : forall pan orc ds h s n st' r,
+  stable_oracle orc ->
+  prun pan orc (init ds) h = Some s ->
+  pvalue (orc (clock s)) pan (fuel_of (nodes s)) (nodes s) n = Some (st', r) ->
+  eval_p pan (fuel_of (nodes s)) (graph_of (nodes s)) n = Some r /\ graph_of st' = graph_of (nodes s) /\ VC st'.
+Proof. exact read_outcome_fresh. Qed.
+Print Assumptions read_fresh_three_outcomes.
+
+Theorem read_three_outcomes_total : forall pan orc ds h s n,
+  stable_oracle orc -> prun pan orc (init ds) h = Some s -> n < length (nodes s) ->
+  exists st' r, pvalue (orc (clock s)) pan (fuel_of (nodes s)) (nodes s) n = Some (st', r).
+Proof. exact pread_total. Qed.
+Print Assumptions read_three_outcomes_total.
+
+(* every permutation oracle: a read that returns a value returns the from-scratch value; a read that panics does
+   so because some processor panics on the from-scratch values of its inputs *)
+Theorem read_fresh_panics_any_order : forall pan orc ds h s n st' r,
   oracle_ok orc ->
   prun pan orc (init ds) h = Some s ->
   pvalue (orc (clock s)) pan (fuel_of (nodes s)) (nodes s) n = Some (st', r) ->
@@ -77,7 +108,42 @@ Theorem read_fresh_three_outcomes_partial : forall pan orc ds h s n st' r,
   | PPanic => genuine pan (graph_of (nodes s))
   end /\ graph_of st' = graph_of (nodes s) /\ VC st'.
 Proof. exact read_fresh_with_panics. Qed.
-Print Assumptions read_fresh_three_outcomes_partial.
+Print Assumptions read_fresh_panics_any_order.
+
+(* Sentence 2 for histories with failing and panicking processors ([execs_of] counts COMPLETED executions; an
+   execution that panicked does not count; a failed one — error result — does): once n completed an execution it
+   is neither executed nor attempted again, and State() stays Processed, during any continuation none of whose
+   operations sets a parameter of its cone or re-wires a node of its cone — whatever panics elsewhere. *)
+Theorem exec_only_if_cone_changed_with_panics : forall pan ds h1 s0 o s0' h2 s1 n,
+  prun pan sorted_oracle (init ds) h1 = Some s0 ->
+  pstep pan sorted_oracle s0 o = Some s0' ->
+  execs_of (nodes s0') n <> execs_of (nodes s0) n ->
+  prun pan sorted_oracle s0' h2 = Some s1 ->
+  Forall (fun o' => ~ touches (graph_of (nodes s0')) n o') h2 ->
+  execs_of (nodes s1) n = execs_of (nodes s0') n /\ clean sorted_order (nodes s1) n.
+Proof.
+  intros pan ds h1 s0 o s0' h2 s1 n.
+  exact (exec_only_if_cone_touched_panics pan sorted_order ds h1 s0 o s0' h2 s1 n sorted_order_stable).
+Qed.
+Print Assumptions exec_only_if_cone_changed_with_panics.
+
+(* What a read that PANICS leaves behind, i.e. what re-executes afterwards: nodes that were clean are untouched
+   and stay clean; every node that completed during it is clean (and will not run again, by the theorem above);
+   no node whose from-scratch evaluation panics — the failed path: the panicking node and everything above it — is
+   marked up to date, and the node read did not complete.  So the next read re-attempts exactly the failed path
+   (plus nodes that were stale and never reached) and panics again unless parameters or wiring changed. *)
+Theorem panicked_read_reexecutes_failed_path : forall pan ds h s n st' r,
+  prun pan sorted_oracle (init ds) h = Some s ->
+  pvalue sorted_order pan (fuel_of (nodes s)) (nodes s) n = Some (st', r) ->
+  (forall m, clean sorted_order (nodes s) m -> nth_error st' m = nth_error (nodes s) m /\ clean sorted_order st' m) /\
+  (forall m, execs_of st' m <> execs_of (nodes s) m -> clean sorted_order st' m) /\
+  (forall m f, eval_p pan f (graph_of st') m = Some PPanic -> ~ clean sorted_order st' m) /\
+  (r = PPanic -> execs_of st' n = execs_of (nodes s) n).
+Proof.
+  intros pan ds h s n st' r.
+  exact (panicked_read_commits pan sorted_order ds h s n st' r sorted_order_stable).
+Qed.
+Print Assumptions panicked_read_reexecutes_failed_path.
 
 (* Sentence 2, first half (stable order = the repaired code): once node n has executed (in step o,
    reaching s0'), it does not execute again during any continuation h2 none of whose operations sets
